@@ -193,8 +193,10 @@ class Ctx(object):
         lineno = getattr(node, 'lineno', None)
         self.obls.append(Obligation(clause, kind, goal, list(self.pc), self.func, lineno, note,
                                     list(self.trail[:self.pos]), extra))
-        # assert-then-assume: later obligations on this path are not polluted
-        if not Z.is_true(goal):
+        # assert-then-assume: later obligations on this path are not polluted -- except that a goal which is
+        # literally false is NOT assumed: it would make every later obligation of the path vacuously true
+        # (e.g. hide a violated exc_ensures behind a violated raises clause)
+        if not Z.is_true(goal) and not Z.is_false(goal):
             self.pc.append(goal)
 
     # -- heap ----------------------------------------------------------------
